@@ -124,9 +124,9 @@ Lemma enter_subs_nth s : nth s (sp_enter_subs mc) None =
 Proof. unfold sp_enter_subs. apply nth_map_sub. Qed.
 
 (* ---- leaving a state ---- *)
-Lemma L_exit fuel s ev rn : okL mc rn ->
+Lemma L_exit {q} fuel s ev rn : okLq q mc rn ->
   sim val (exec_exit contained mc children fuel s ev) rn
-      (fun _ rn' items => okL mc rn' /\ processing rn' = processing rn /\
+      (fun _ rn' items => okLq q mc rn' /\ processing rn' = processing rn /\
                           (items, abs rn') = sp_exit_state (sp_exit_subs mc) ev s ([], abs rn)).
 Proof.
   intros Hok. unfold exec_exit, sp_exit_state. rewrite exit_subs_nth, abs_kid.
@@ -186,9 +186,9 @@ Lemma entry_throw_irrelevant {A} (m:M A) c rn (P:A -> rnode -> list titem -> Pro
   sim val m rn P -> sim val (if b then on_throw m c else m) rn P.
 Proof. intros H. destruct b; [apply sim_on_throw|]; exact H. Qed.
 
-Lemma L_entry fuel s ev rn : okL mc rn -> 1 <= fuel ->
+Lemma L_entry {q} fuel s ev rn : okLq q mc rn -> 1 <= fuel ->
   sim val (exec_entry cf contained mc children fuel s ev EkPlain) rn
-      (fun _ rn' items => okL mc rn' /\ processing rn' = processing rn /\
+      (fun _ rn' items => okLq q mc rn' /\ processing rn' = processing rn /\
                           (items, abs rn') = sp_enter_state (sp_enter_subs mc) ev s ([], abs rn)).
 Proof.
   intros Hok Hfuel. unfold exec_entry, sp_enter_state. rewrite enter_subs_nth, abs_kid.
@@ -254,7 +254,7 @@ Qed.
 Definition core_row' (x:row) : Prop :=
   r_act x <> ActDefer /\ r_exitpt x = None /\ (r_tgt x = TgNone \/ exists t, r_tgt x = TgState t).
 
-Lemma L_take fuel r x ev rn : okL mc rn -> 1 <= fuel -> core_row' x ->
+Lemma L_take {q} fuel r x ev rn : okLq q mc rn -> 1 <= fuel -> core_row' x ->
   sim val (match tgt_state (r_tgt x) with
            | None => run_action mc x ev
            | Some nxt =>
@@ -267,7 +267,7 @@ Lemma L_take fuel r x ev rn : okL mc rn -> 1 <= fuel -> core_row' x ->
                set_act_at r (switch_id pol 3 (r_src x) nxt) ;;
                ret res
            end) rn
-      (fun code rn' items => okL mc rn' /\ processing rn' = processing rn /\ code = HANDLED_TRUE /\
+      (fun code rn' items => okLq q mc rn' /\ processing rn' = processing rn /\ code = HANDLED_TRUE /\
                              (items, abs rn') = sp_take pol mc r x ev (abs rn)).
 Proof.
   intros Hok Hfuel (Hd & _ & Htgt). unfold sp_take.
@@ -276,11 +276,11 @@ Proof.
     cbn. intros code rn' items (-> & -> & ->). rewrite abs_act. auto.
   - set (cur := r_src x).
     eapply sim_bind; [apply sim_set_act_at|]. cbn. intros u0 rn0 i0 (-> & ->).
-    eapply sim_bind; [apply L_exit; apply okL_set_act; exact Hok|]. cbn. intros u1 rn1 i1 (Hok1 & Hp1 & E1).
+    eapply sim_bind; [eapply (L_exit (q:=q)); apply okL_set_act; exact Hok|]. cbn. intros u1 rn1 i1 (Hok1 & Hp1 & E1).
     eapply sim_bind; [apply sim_set_act_at|]. cbn. intros u2 rn2 i2 (-> & ->).
     eapply sim_bind; [apply sim_run_action; exact Hd|]. cbn. intros res rn3 i3 (-> & -> & ->).
     eapply sim_bind; [apply sim_set_act_at|]. cbn. intros u4 rn4 i4 (-> & ->).
-    eapply sim_bind; [apply L_entry; [repeat apply okL_set_act; exact Hok1 | exact Hfuel]|].
+    eapply sim_bind; [eapply (L_entry (q:=q)); [repeat apply okL_set_act; exact Hok1 | exact Hfuel]|].
     cbn. intros u5 rn5 i5 (Hok5 & Hp5 & E5).
     eapply sim_bind; [apply sim_set_act_at|]. cbn. intros u6 rn6 i6 (-> & ->).
     apply sim_ret. cbn.
@@ -300,9 +300,9 @@ Proof.
     rewrite abs_set_act_at. rewrite !app_nil_r. rewrite app_assoc. reflexivity.
 Qed.
 
-Lemma L_row fuel r x ev rn : okL mc rn -> 1 <= fuel -> core_row' x ->
+Lemma L_row {q} fuel r x ev rn : okLq q mc rn -> 1 <= fuel -> core_row' x ->
   sim val (exec_row cf contained mc children fuel r x ev) rn
-      (fun code rn' items => okL mc rn' /\ processing rn' = processing rn /\
+      (fun code rn' items => okLq q mc rn' /\ processing rn' = processing rn /\
          items = o_items (sp_rows pol mc r ev val [x] (abs rn)) /\ abs rn' = o_conf (sp_rows pol mc r ev val [x] (abs rn)) /\
          code = (if o_taken (sp_rows pol mc r ev val [x] (abs rn)) then 1 else 2) /\
          o_rejected (sp_rows pol mc r ev val [x] (abs rn)) = negb (o_taken (sp_rows pol mc r ev val [x] (abs rn)))).
@@ -323,7 +323,7 @@ Proof.
                            ret res
                        end
                      else ret HANDLED_GUARD_REJECT) rn
-              (fun code rn' items => okL mc rn' /\ processing rn' = processing rn /\
+              (fun code rn' items => okLq q mc rn' /\ processing rn' = processing rn /\
                  let o := (if r_guard x
                            then if memb (r_id x) val
                                 then (let '(i, c') := sp_take pol mc r x ev (abs rn) in Out true false (i ++ [Cb (KGuard true) [] (r_id x) ev false (c_act (abs rn))]) c')
@@ -331,7 +331,7 @@ Proof.
                            else (let '(i, c') := sp_take pol mc r x ev (abs rn) in Out true false i c')) in
                  items ++ gi = o_items o /\ abs rn' = o_conf o /\ code = (if o_taken o then 1 else 2) /\ o_rejected o = negb (o_taken o))).
   { intros b gi Hb. destruct b.
-    - eapply sim_conseq; [apply L_take; auto|]. cbn. intros code rn' items (H1 & H2 & -> & E).
+    - eapply sim_conseq; [eapply (L_take (q:=q)); auto|]. cbn. intros code rn' items (H1 & H2 & -> & E).
       split; [exact H1|]. split; [exact H2|].
       destruct (sp_take pol mc r x ev (abs rn)) as [i c'] eqn:T. inversion E; subst i c'.
       destruct (r_guard x).
@@ -384,16 +384,16 @@ Proof.
   - destruct (sp_take pol mc r x ev c) as [i c']. reflexivity.
 Qed.
 
-Lemma L_rows fuel r s ev : forall rows rn, okL mc rn -> 1 <= fuel -> Forall core_row' rows ->
+Lemma L_rows {q} fuel r s ev : forall rows rn, okLq q mc rn -> 1 <= fuel -> Forall core_row' rows ->
   sim val (chain_gen (exec_item cf contained mc children fuel r s ev) (chain_continue cf) (chain_merge cf) (map CRow rows)) rn
-      (fun code rn' items => okL mc rn' /\ processing rn' = processing rn /\
+      (fun code rn' items => okLq q mc rn' /\ processing rn' = processing rn /\
          items = o_items (sp_rows pol mc r ev val rows (abs rn)) /\ abs rn' = o_conf (sp_rows pol mc r ev val rows (abs rn)) /\
          code_ok code (o_taken (sp_rows pol mc r ev val rows (abs rn))) (o_rejected (sp_rows pol mc r ev val rows (abs rn)))).
 Proof.
   induction rows as [|x t IH]; intros rn Hok Hfuel Hall; cbn [map chain_gen].
   - apply sim_ret. cbn. split; [exact Hok|]. repeat (split; [reflexivity|]). reflexivity.
   - inversion Hall as [|? ? Hx Ht]; subst. rewrite sp_rows_cons.
-    eapply sim_bind; [apply (L_row fuel r x ev rn Hok Hfuel Hx)|].
+    eapply sim_bind; [apply (L_row (q:=q) fuel r x ev rn Hok Hfuel Hx)|].
     cbn beta. intros res rn1 i1 (Hok1 & Hp1 & Ei & Ec & Eres & Erj).
     destruct (o_taken (sp_rows pol mc r ev val [x] (abs rn))) eqn:Tk.
     + subst res. destruct cc_vals as (_ & C1 & _). rewrite C1. apply sim_ret. cbn zeta. rewrite Tk.
@@ -420,9 +420,9 @@ Lemma loop_stops {A} (ex:A -> M nat) cont step acc l rn : cont acc = false ->
   sim val (loop_gen ex cont step acc l) rn (fun code rn' items => rn' = rn /\ items = [] /\ code = acc).
 Proof. intros H. destruct l; cbn [loop_gen]; [|rewrite H]; apply sim_ret; auto. Qed.
 
-Lemma L_rows_fct fuel r s ev : forall rows rn rj0, okL mc rn -> 1 <= fuel -> Forall core_row' rows ->
+Lemma L_rows_fct {q} fuel r s ev : forall rows rn rj0, okLq q mc rn -> 1 <= fuel -> Forall core_row' rows ->
   sim val (loop_gen (exec_item cf contained mc children fuel r s ev) (tab1 fct_chain_continue) (tab2 fct_chain_step) (acc_of rj0) (map CRow rows)) rn
-      (fun code rn' items => okL mc rn' /\ processing rn' = processing rn /\
+      (fun code rn' items => okLq q mc rn' /\ processing rn' = processing rn /\
          items = o_items (sp_rows pol mc r ev val rows (abs rn)) /\ abs rn' = o_conf (sp_rows pol mc r ev val rows (abs rn)) /\
          code_ok code (o_taken (sp_rows pol mc r ev val rows (abs rn))) (rj0 || o_rejected (sp_rows pol mc r ev val rows (abs rn)))).
 Proof.
@@ -430,7 +430,7 @@ Proof.
   - apply sim_ret. cbn. split; [exact Hok|]. repeat (split; [reflexivity|]). unfold code_ok, acc_of. rewrite orb_false_r. reflexivity.
   - inversion Hall as [|? ? Hx Ht]; subst. rewrite sp_rows_cons.
     assert (Hc : tab1 fct_chain_continue (acc_of rj0) = true) by (destruct rj0; reflexivity). rewrite Hc.
-    eapply sim_bind; [apply (L_row fuel r x ev rn Hok Hfuel Hx)|].
+    eapply sim_bind; [apply (L_row (q:=q) fuel r x ev rn Hok Hfuel Hx)|].
     cbn beta. intros res rn1 i1 (Hok1 & Hp1 & Ei & Ec & Eres & Erj).
     destruct (o_taken (sp_rows pol mc r ev val [x] (abs rn))) eqn:Tk.
     + subst res. cbn zeta. rewrite Tk.
@@ -446,9 +446,9 @@ Proof.
 Qed.
 
 (* the rows alone, as run_cell executes them under either compile policy *)
-Lemma L_run_rows fuel r s ev rows rn0 : okL mc rn0 -> 1 <= fuel -> Forall core_row' rows ->
+Lemma L_run_rows {q} fuel r s ev rows rn0 : okLq q mc rn0 -> 1 <= fuel -> Forall core_row' rows ->
   sim val (run_cell cf contained mc children fuel r s ev (map CRow rows)) rn0
-      (fun code rn' items => okL mc rn' /\ processing rn' = processing rn0 /\
+      (fun code rn' items => okLq q mc rn' /\ processing rn' = processing rn0 /\
          items = o_items (sp_rows pol mc r ev val rows (abs rn0)) /\ abs rn' = o_conf (sp_rows pol mc r ev val rows (abs rn0)) /\
          code_ok code (o_taken (sp_rows pol mc r ev val rows (abs rn0))) (o_rejected (sp_rows pol mc r ev val rows (abs rn0)))).
 Proof.
@@ -458,7 +458,7 @@ Proof.
     destruct rows as [|x [|y t]] eqn:Ec; cbn [map].
     + apply sim_ret. cbn. split; [exact Hok0|]. repeat (split; [reflexivity|]). reflexivity.
     + inversion Hrows as [|? ? Hx _]; subst. cbn [exec_item].
-      eapply sim_conseq; [apply (L_row fuel r x ev rn0 Hok0 Hf1 Hx)|].
+      eapply sim_conseq; [apply (L_row (q:=q) fuel r x ev rn0 Hok0 Hf1 Hx)|].
       cbn beta. intros code rn' items (H1 & H2 & H3 & H4 & H5 & H6).
       split; [exact H1|]. split; [exact H2|]. split; [exact H3|]. split; [exact H4|].
       rewrite H6. subst code. unfold code_ok. destruct (o_taken _); cbn; auto.
@@ -562,10 +562,10 @@ Lemma match_id {A} (l:list A) : match l with [] => [] | _ :: _ => l end = l.
 Proof. destruct l; reflexivity. Qed.
 
 (* ---- one region ---- *)
-Lemma L_cell_fct fuel r ev rn : c_fct cf = true -> okL mc rn -> depth mc + 1 <= fuel -> e_ty ev <> EV_NONE ->
+Lemma L_cell_fct {q} fuel r ev rn : c_fct cf = true -> okLq q mc rn -> depth mc + 1 <= fuel -> e_ty ev <> EV_NONE ->
   sim val (run_cell cf contained mc children fuel r (nth r (act rn) 0) ev
              (cell_items cf parents mc children (nth r (act rn) 0) (e_ty ev))) rn
-      (fun code rn' items => okL mc rn' /\ processing rn' = processing rn /\
+      (fun code rn' items => okLq q mc rn' /\ processing rn' = processing rn /\
          items = o_items (sp_region pol mc (sp_level_subs pol mc) ev val r (abs rn)) /\
          abs rn' = o_conf (sp_region pol mc (sp_level_subs pol mc) ev val r (abs rn)) /\
          code_ok code (o_taken (sp_region pol mc (sp_level_subs pol mc) ev val r (abs rn)))
@@ -585,7 +585,7 @@ Proof.
     assert (Ene : Nat.eqb (e_ty ev) EV_NONE = false) by (apply Nat.eqb_neq; exact Hev). rewrite Ene. cbn [negb andb].
     destruct (existsb (fun t => match t with TrEv e => Nat.eqb e (e_ty ev) | _ => false end) (co_trigs co)) eqn:Fw.
     + assert (Fr : sim val (exec_item cf contained mc children fuel r s ev CFrow) rn
-                (fun code rn' items => okL mc rn' /\ processing rn' = processing rn /\ act rn' = act rn /\
+                (fun code rn' items => okLq q mc rn' /\ processing rn' = processing rn /\ act rn' = act rn /\
                    items = map (push_path s) (o_items (sp_level pol c ev val (abs kn))) /\
                    abs rn' = c_set_kid (abs rn) s (o_conf (sp_level pol c ev val (abs kn))) /\
                    code_ok code (o_taken (sp_level pol c ev val (abs kn))) (o_rejected (sp_level pol c ev val (abs kn))))).
@@ -610,42 +610,42 @@ Proof.
       * assert (Est : tab2 fct_chain_step HANDLED_FALSE res = acc_of (o_rejected (sp_level pol c ev val (abs kn)))).
         { unfold code_ok in Hc1. destruct (o_rejected (sp_level pol c ev val (abs kn))); subst res; reflexivity. }
         rewrite Est.
-        eapply sim_conseq; [apply (L_rows_fct fuel r s ev _ rn1 _ Hok1 Hf1 Hrows)|].
+        eapply sim_conseq; [apply (L_rows_fct (q:=q) fuel r s ev _ rn1 _ Hok1 Hf1 Hrows)|].
         cbn beta. intros code rn2 i2 (Hok2 & Hp2 & Ei2 & Ec2 & Hc2).
         rewrite Ec1 in *. cbn [o_taken o_rejected o_items o_conf].
         split; [exact Hok2|]. split; [congruence|]. split; [rewrite Ei2, Ei1; reflexivity|]. split; [exact Ec2 | exact Hc2].
     + rewrite (cs_silent_fct c co Hsp ev (abs kn) Fw). cbn [o_taken o_rejected o_items o_conf map app orb].
       assert (Eid : c_set_kid (abs rn) s (abs kn) = abs rn) by (apply c_set_kid_same; rewrite abs_kid, Hk; reflexivity).
       rewrite Eid. cbn [app].
-      eapply sim_conseq; [apply (L_run_rows fuel r s ev _ rn Hok Hf1 Hrows)|]. cbn beta. intros code rn' items (H1 & H2 & H3 & H4 & H5).
+      eapply sim_conseq; [apply (L_run_rows (q:=q) fuel r s ev _ rn Hok Hf1 Hrows)|]. cbn beta. intros code rn' items (H1 & H2 & H3 & H4 & H5).
       rewrite app_nil_r. auto.
   - unfold forwards. rewrite (child_none s Es). cbn [andb app].
-    eapply sim_conseq; [apply (L_run_rows fuel r s ev _ rn Hok Hf1 Hrows)|]. cbn beta. intros code rn' items H. exact H.
+    eapply sim_conseq; [apply (L_run_rows (q:=q) fuel r s ev _ rn Hok Hf1 Hrows)|]. cbn beta. intros code rn' items H. exact H.
 Qed.
 
-Lemma L_cell fuel r ev rn : okL mc rn -> depth mc + 1 <= fuel -> e_ty ev <> EV_NONE ->
+Lemma L_cell {q} fuel r ev rn : okLq q mc rn -> depth mc + 1 <= fuel -> e_ty ev <> EV_NONE ->
   sim val (run_cell cf contained mc children fuel r (nth r (act rn) 0) ev
              (cell_items cf parents mc children (nth r (act rn) 0) (e_ty ev))) rn
-      (fun code rn' items => okL mc rn' /\ processing rn' = processing rn /\
+      (fun code rn' items => okLq q mc rn' /\ processing rn' = processing rn /\
          items = o_items (sp_region pol mc (sp_level_subs pol mc) ev val r (abs rn)) /\
          abs rn' = o_conf (sp_region pol mc (sp_level_subs pol mc) ev val r (abs rn)) /\
          code_ok code (o_taken (sp_region pol mc (sp_level_subs pol mc) ev val r (abs rn)))
                       (o_rejected (sp_region pol mc (sp_level_subs pol mc) ev val r (abs rn)))).
 Proof.
-  intros Hok Hfuel Hev. destruct (c_fct cf) eqn:Hnofct; [apply L_cell_fct; assumption|]. set (s := nth r (act rn) 0).
+  intros Hok Hfuel Hev. destruct (c_fct cf) eqn:Hnofct; [eapply (L_cell_fct (q:=q)); assumption|]. set (s := nth r (act rn) 0).
   assert (Hf1 : 1 <= fuel) by lia.
   destruct (table_rows_spec s (e_ty ev) Hev) as (Etab & Hrows).
   destruct (core_state s) as (Hdef & _ & _ & Hsubcore).
   unfold run_cell, cell_items. rewrite Hnofct. unfold state_defers. rewrite Hdef. cbn [memb existsb]. rewrite Etab.
   unfold sp_region. rewrite abs_act. fold s. rewrite level_subs_nth, abs_kid.
   (* the rows alone, as run_cell executes them *)
-  assert (Rows : forall rn0, okL mc rn0 ->
+  assert (Rows : forall rn0, okLq q mc rn0 ->
             sim val (match map CRow (sp_candidates mc s (e_ty ev)) with
                      | [] => ret HANDLED_FALSE
                      | [x] => exec_item cf contained mc children fuel r s ev x
                      | _ => chain_row cf contained mc children fuel r s ev (map CRow (sp_candidates mc s (e_ty ev)))
                      end) rn0
-              (fun code rn' items => okL mc rn' /\ processing rn' = processing rn0 /\
+              (fun code rn' items => okLq q mc rn' /\ processing rn' = processing rn0 /\
                  items = o_items (sp_rows pol mc r ev val (sp_candidates mc s (e_ty ev)) (abs rn0)) /\
                  abs rn' = o_conf (sp_rows pol mc r ev val (sp_candidates mc s (e_ty ev)) (abs rn0)) /\
                  code_ok code (o_taken (sp_rows pol mc r ev val (sp_candidates mc s (e_ty ev)) (abs rn0)))
@@ -654,7 +654,7 @@ Proof.
     destruct (sp_candidates mc s (e_ty ev)) as [|x [|y t]] eqn:Ec; cbn [map].
     - apply sim_ret. cbn. split; [exact Hok0|]. repeat (split; [reflexivity|]). reflexivity.
     - inversion Hrows as [|? ? Hx _]; subst. cbn [exec_item].
-      eapply sim_conseq; [apply (L_row fuel r x ev rn0 Hok0 Hf1 Hx)|].
+      eapply sim_conseq; [apply (L_row (q:=q) fuel r x ev rn0 Hok0 Hf1 Hx)|].
       cbn beta. intros code rn' items (H1 & H2 & H3 & H4 & H5 & H6).
       split; [exact H1|]. split; [exact H2|]. split; [exact H3|]. split; [exact H4|].
       rewrite H6. subst code. unfold code_ok. destruct (o_taken _); cbn; auto.
@@ -668,7 +668,7 @@ Proof.
     destruct (existsb (fun t => trig_matches parents true t (e_ty ev)) (co_trigs co)) eqn:Fw.
     + (* forwarded first *)
       assert (Fr : sim val (exec_item cf contained mc children fuel r s ev CFrow) rn
-                (fun code rn' items => okL mc rn' /\ processing rn' = processing rn /\ act rn' = act rn /\
+                (fun code rn' items => okLq q mc rn' /\ processing rn' = processing rn /\ act rn' = act rn /\
                    items = map (push_path s) (o_items (sp_level pol c ev val (abs kn))) /\
                    abs rn' = c_set_kid (abs rn) s (o_conf (sp_level pol c ev val (abs kn))) /\
                    code_ok code (o_taken (sp_level pol c ev val (abs kn))) (o_rejected (sp_level pol c ev val (abs kn))))).
@@ -701,7 +701,7 @@ Proof.
         -- assert (Cf : chain_continue cf res = true).
            { destruct cc_vals as (C0 & _ & C2 & _). unfold code_ok in Hc1. destruct (o_rejected _); subst res; auto. }
            rewrite Cf.
-           eapply sim_bind; [apply (L_rows fuel r s ev _ rn1 Hok1 Hf1 Hrows)|].
+           eapply sim_bind; [apply (L_rows (q:=q) fuel r s ev _ rn1 Hok1 Hf1 Hrows)|].
            cbn beta. intros sub rn2 i2 (Hok2 & Hp2 & Ei2 & Ec2 & Hc2). apply sim_ret. rewrite app_nil_l.
            rewrite Ec1 in *. cbn [o_taken o_rejected o_items o_conf].
            split; [exact Hok2|]. split; [congruence|]. split; [rewrite Ei2, Ei1; reflexivity|]. split; [exact Ec2|].
@@ -726,10 +726,10 @@ Definition reg_step (ev:evt) (o:outcome) (r:nat) : outcome :=
   let o' := sp_region pol mc (sp_level_subs pol mc) ev val r (o_conf o) in
   Out (o_taken o || o_taken o') (o_rejected o || o_rejected o') (o_items o' ++ o_items o) (o_conf o').
 
-Lemma L_regions fuel ev : depth mc + 1 <= fuel -> e_ty ev <> EV_NONE ->
-  forall n r acc oacc rn, okL mc rn -> abs rn = o_conf oacc -> code_ok acc (o_taken oacc) (o_rejected oacc) ->
+Lemma L_regions {q} fuel ev : depth mc + 1 <= fuel -> e_ty ev <> EV_NONE ->
+  forall n r acc oacc rn, okLq q mc rn -> abs rn = o_conf oacc -> code_ok acc (o_taken oacc) (o_rejected oacc) ->
   sim val (regions_loop cf parents contained mc children fuel ev n r acc) rn
-      (fun code rn' items => okL mc rn' /\ processing rn' = processing rn /\
+      (fun code rn' items => okLq q mc rn' /\ processing rn' = processing rn /\
          items ++ o_items oacc = o_items (fold_left (reg_step ev) (seqn r n) oacc) /\
          abs rn' = o_conf (fold_left (reg_step ev) (seqn r n) oacc) /\
          code_ok code (o_taken (fold_left (reg_step ev) (seqn r n) oacc)) (o_rejected (fold_left (reg_step ev) (seqn r n) oacc))).
@@ -738,7 +738,7 @@ Proof.
   - apply sim_ret. rewrite app_nil_l. auto.
   - eapply sim_bind; [apply (sim_get val rn (fun a rn1 i1 => a = rn /\ rn1 = rn /\ i1 = [])); auto|].
     cbn beta. intros a rn0 i0 (-> & -> & ->).
-    eapply sim_bind; [apply (L_cell fuel r ev rn Hok Hfuel Hev)|].
+    eapply sim_bind; [apply (L_cell (q:=q) fuel r ev rn Hok Hfuel Hev)|].
     cbn beta. intros res rn1 i1 (Hok1 & Hp1 & Ei1 & Ec1 & Hc1).
     eapply sim_conseq.
     { apply (IH (S r) (bit_or acc res) (reg_step ev oacc r) rn1 Hok1).
@@ -787,9 +787,9 @@ Proof.
   - exact IH.
 Qed.
 
-Lemma L_level fuel ev direct rn : okL mc rn -> depth mc + 1 <= fuel -> e_ty ev <> EV_NONE ->
+Lemma L_level {q} fuel ev direct rn : okLq q mc rn -> depth mc + 1 <= fuel -> e_ty ev <> EV_NONE ->
   sim val (do_process_event cf parents contained mc children fuel ev direct) rn
-      (fun code rn' items => okL mc rn' /\ processing rn' = processing rn /\
+      (fun code rn' items => okLq q mc rn' /\ processing rn' = processing rn /\
          (let o := sp_level pol mc ev val (abs rn) in
           let nt := (negb contained || direct) && negb (o_taken o || o_rejected o) in
           items = (if nt then rev (map (fun s => Cb KNoTrans [] s ev false (c_act (o_conf o))) (c_act (o_conf o))) else []) ++ o_items o /\
@@ -797,12 +797,12 @@ Lemma L_level fuel ev direct rn : okL mc rn -> depth mc + 1 <= fuel -> e_ty ev <
 Proof.
   intros Hok Hfuel Hev. assert (Hf1 : 1 <= fuel) by lia. unfold do_process_event. rewrite sp_level_unfold, sp_regions_fold.
   eapply sim_bind.
-  { apply (L_regions fuel ev Hfuel Hev (m_nreg mc) 0 HANDLED_FALSE (Out false false [] (abs rn)) rn Hok); [reflexivity|].
+  { apply (L_regions (q:=q) fuel ev Hfuel Hev (m_nreg mc) 0 HANDLED_FALSE (Out false false [] (abs rn)) rn Hok); [reflexivity|].
     unfold code_ok. reflexivity. }
   cbn beta. intros h rn1 i1 (Hok1 & Hp1 & Ei1 & Ec1 & Hc1). rewrite app_nil_r in Ei1.
   set (o := fold_left (reg_step ev) (seqn 0 (m_nreg mc)) (Out false false [] (abs rn))) in *.
   (* the machine's own internal table *)
-  eapply sim_bind with (P := fun h2 rn2 i2 => okL mc rn2 /\ processing rn2 = processing rn /\
+  eapply sim_bind with (P := fun h2 rn2 i2 => okLq q mc rn2 /\ processing rn2 = processing rn /\
       let o' := (if o_taken o then o
                  else (let o2 := sp_rows pol mc 0 ev val (rev (filter (sp_matches (e_ty ev)) (m_irows mc))) (o_conf o) in
                        Out (o_taken o2) (o_rejected o || o_rejected o2) (o_items o2 ++ o_items o) (o_conf o2))) in
@@ -825,7 +825,7 @@ Proof.
         assert (Hgood : Forall core_row' (rev (filter (sp_matches (e_ty ev)) (m_irows mc)))).
         { apply Forall_rev'. apply Forall_filter. eapply Forall_impl; [|apply core_irows_good]. intros x (H & _). exact H. }
         set (irs := rev (filter (sp_matches (e_ty ev)) (m_irows mc))) in *.
-        eapply sim_bind with (P := fun ri rn3 i3 => okL mc rn3 /\ processing rn3 = processing rn1 /\
+        eapply sim_bind with (P := fun ri rn3 i3 => okLq q mc rn3 /\ processing rn3 = processing rn1 /\
             i3 = o_items (sp_rows pol mc 0 ev val irs (abs rn1)) /\ abs rn3 = o_conf (sp_rows pol mc 0 ev val irs (abs rn1)) /\
             code_ok ri (o_taken (sp_rows pol mc 0 ev val irs (abs rn1))) (o_rejected (sp_rows pol mc 0 ev val irs (abs rn1)))).
         { exact (L_run_rows fuel 0 (nth 0 (act rn1) 0) ev irs rn1 Hok1 Hf1 Hgood). }
@@ -922,7 +922,7 @@ Proof.
   eapply sim_bind; [apply (sim_modify val _ rn (fun _ rn1 i1 => rn1 = set_processing rn true /\ i1 = [])); auto|].
   cbn beta. intros u1 rn1 i1 (-> & ->).
   eapply sim_bind.
-  { apply sim_catch. apply (L_level f ev (has_bits src SRC_DIRECT) (set_processing rn true)); [apply okL_set_processing; exact HokL | lia | exact Hev]. }
+  { apply sim_catch. apply (L_level (q:=[]) f ev (has_bits src SRC_DIRECT) (set_processing rn true)); [apply okL_set_processing; exact HokL | lia | exact Hev]. }
   cbn beta. intros code rn2 i2 (Hok2 & Hp2 & Hres). rewrite abs_set_processing in Hres.
   eapply sim_bind; [apply (sim_modify val _ rn2 (fun _ rn3 i3 => rn3 = set_processing rn2 false /\ i3 = [])); auto|].
   cbn beta. intros u3 rn3 i3 (-> & ->).
@@ -947,10 +947,131 @@ Proof.
   - rewrite abs_set_processing. exact Hres.
 Qed.
 
+(* ---- events stored in the level's own message queue (enqueue_event from outside) ---- *)
+Definition mkq (e:evt) : qitem := QEv e SRC_MSG_QUEUE 0%Z false.
+
+(* a stored event taken from the queue is one complete step; what else the queue holds stays *)
+Lemma L_pei_queued {q} fuel ev rn : okLq q mc rn -> processing rn = false -> depth mc + 2 <= fuel -> e_ty ev <> EV_NONE ->
+  sim val (pei cf parents contained mc children fuel ev SRC_MSG_QUEUE) rn
+      (fun code rn' items => okLq q mc rn' /\ processing rn' = false /\
+         (let o := sp_level pol mc ev val (abs rn) in
+          let nt := negb contained && negb (o_taken o || o_rejected o) in
+          items = (if nt then rev (map (fun s => Cb KNoTrans [] s ev false (c_act (o_conf o))) (c_act (o_conf o))) else []) ++ o_items o /\
+          abs rn' = o_conf o)).
+Proof.
+  intros HokL Hproc Hfuel Hev.
+  destruct fuel as [|f]; [lia|]. cbn [pei]. unfold pei_body.
+  eapply sim_bind; [apply (sim_get val rn (fun a rn1 i1 => a = rn /\ rn1 = rn /\ i1 = [])); auto|].
+  cbn beta. intros a rn0 i0 (-> & -> & ->). rewrite blocked_false, Hproc.
+  eapply sim_bind; [apply (sim_modify val _ rn (fun _ rn1 i1 => rn1 = set_processing rn true /\ i1 = [])); auto|].
+  cbn beta. intros u1 rn1 i1 (-> & ->).
+  eapply sim_bind.
+  { apply sim_catch. apply (L_level (q:=q) f ev (has_bits SRC_MSG_QUEUE SRC_DIRECT) (set_processing rn true)); [apply okL_set_processing; exact HokL | lia | exact Hev]. }
+  cbn beta. intros code rn2 i2 (Hok2 & Hp2 & Hres). rewrite abs_set_processing in Hres.
+  eapply sim_bind; [apply (sim_modify val _ rn2 (fun _ rn3 i3 => rn3 = set_processing rn2 false /\ i3 = [])); auto|].
+  cbn beta. intros u3 rn3 i3 (-> & ->).
+  rewrite core_no_completion. cbn [andb].
+  eapply sim_bind; [apply (sim_ret val tt (set_processing rn2 false) (fun _ rn4 i4 => rn4 = set_processing rn2 false /\ i4 = [])); auto|].
+  cbn beta. intros u4 rn4 i4 (-> & ->).
+  assert (Hf : 1 <= f) by lia.
+  change (has_bits SRC_MSG_QUEUE SRC_MSG_QUEUE) with true. change (has_bits SRC_MSG_QUEUE SRC_DEFERRED) with false.
+  change (has_bits SRC_MSG_QUEUE SRC_DIRECT) with false in Hres. cbn [negb orb] in *.
+  eapply sim_bind with (P := fun _ rn5 i5 => rn5 = set_processing rn2 false /\ i5 = []).
+  { destruct (c_qbefore cf); [apply sim_ret; auto|].
+    eapply sim_bind; [apply sim_handle_deferred; exact Hf|]. cbn beta. intros u5 rn5 i5 (-> & ->). apply sim_ret. auto. }
+  cbn beta. intros u5 rn5 i5 (-> & ->). apply sim_ret. rewrite !app_nil_l, !app_nil_r.
+  split; [apply okL_set_processing; exact Hok2|]. split; [destruct rn2; reflexivity|].
+  rewrite abs_set_processing. cbn zeta in Hres. destruct Hres as (H1 & H2 & _). rewrite orb_false_r in H1. auto.
+Qed.
+
+Lemma sp_process_unfold_root ev c :
+  let o := sp_level pol mc ev val c in
+  sp_process pol mc ev val c =
+    Out (o_taken o) (o_rejected o)
+        ((if negb (o_taken o || o_rejected o) then rev (map (fun s => Cb KNoTrans [] s ev false (c_act (o_conf o))) (c_act (o_conf o))) else []) ++ o_items o)
+        (o_conf o).
+Proof.
+  cbn zeta. unfold sp_process. destruct (sp_level pol mc ev val c) as [t rj i c']. cbn [o_taken o_rejected o_items o_conf].
+  destruct t, rj; reflexivity.
+Qed.
+
+(* the stored events are dispatched oldest first, each as a complete step: execute_queued_events, and the queue handling
+   at the end of a direct process_event *)
+Lemma L_drain fuel' : contained = false -> depth mc + 2 <= fuel' ->
+  forall evs f rn, okLq (map mkq evs) mc rn -> processing rn = false -> length evs <= f ->
+    Forall (fun e => e_ty e <> EV_NONE) evs ->
+    sim val (drain_msgq (pei cf parents contained mc children fuel') f) rn
+        (fun _ rn' items => ok mc rn' /\ (items, abs rn') = sp_drain pol mc val evs (abs rn)).
+Proof.
+  intros Hroot Hfuel. induction evs as [|e t IH]; intros f rn Hok Hp Hlen Hall.
+  - cbn [map] in Hok. eapply sim_conseq; [apply sim_drain_empty; destruct Hok as (Hq & _); exact Hq|].
+    cbn beta. intros u rn' items (-> & ->). split; [apply ok_unfold; split; assumption | reflexivity].
+  - destruct f as [|f]; [cbn in Hlen; lia|]. cbn [drain_msgq map].
+    inversion Hall as [|e' t' He Ht]; subst e' t'.
+    eapply sim_bind; [apply (sim_get val rn (fun a rn1 i1 => a = rn /\ rn1 = rn /\ i1 = [])); auto|].
+    cbn beta. intros a rn1 i1 (-> & -> & ->).
+    assert (Hq : msgq rn = mkq e :: map mkq t) by (destruct Hok as (Hq & _); exact Hq).
+    rewrite Hq. unfold mkq at 1.
+    eapply sim_bind; [apply (sim_put val (set_msgq rn (map mkq t)) rn (fun _ rn1 i1 => rn1 = set_msgq rn (map mkq t) /\ i1 = [])); auto|].
+    cbn beta. intros u1 rn1 i1 (-> & ->).
+    eapply sim_bind.
+    { apply (L_pei_queued (q:=map mkq t) fuel' e (set_msgq rn (map mkq t))); [eapply okL_set_msgq; exact Hok | destruct rn; exact Hp | exact Hfuel | exact He]. }
+    cbn beta. intros code rn2 i2 (Hok2 & Hp2 & Hi2 & Ha2). rewrite abs_set_msgq in Hi2, Ha2.
+    eapply sim_conseq; [apply (IH f rn2 Hok2 Hp2); [cbn in Hlen; lia | exact Ht]|].
+    cbn beta. intros u3 rn3 i3 (Hok3 & E3). split; [exact Hok3|].
+    cbn [sp_drain]. rewrite sp_process_unfold_root. cbn zeta. cbn [o_conf o_items].
+    rewrite Hroot in Hi2. cbn [negb andb] in Hi2. rewrite <- Hi2. rewrite <- Ha2, <- E3. rewrite !app_nil_r. reflexivity.
+Qed.
+
+(* process_event from outside while events are stored: the event's own step, then every stored event *)
+Lemma L_pei_direct_q evs fuel ev rn : contained = false ->
+  okLq (map mkq evs) mc rn -> processing rn = false -> depth mc + 3 + length evs <= fuel -> e_ty ev <> EV_NONE ->
+  Forall (fun e => e_ty e <> EV_NONE) evs ->
+  sim val (pei cf parents contained mc children fuel ev SRC_DIRECT) rn
+      (fun code rn' items => ok mc rn' /\
+         (let o := sp_process pol mc ev val (abs rn) in
+          let '(i, c') := sp_drain pol mc val evs (o_conf o) in
+          items = i ++ o_items o /\ abs rn' = c' /\ code_ok code (o_taken o) (o_rejected o))).
+Proof.
+  intros Hroot HokL Hproc Hfuel Hev Hall.
+  destruct fuel as [|f]; [lia|]. cbn [pei]. unfold pei_body.
+  eapply sim_bind; [apply (sim_get val rn (fun a rn1 i1 => a = rn /\ rn1 = rn /\ i1 = [])); auto|].
+  cbn beta. intros a rn0 i0 (-> & -> & ->). rewrite blocked_false, Hproc.
+  eapply sim_bind; [apply (sim_modify val _ rn (fun _ rn1 i1 => rn1 = set_processing rn true /\ i1 = [])); auto|].
+  cbn beta. intros u1 rn1 i1 (-> & ->).
+  eapply sim_bind.
+  { apply sim_catch. apply (L_level (q:=map mkq evs) f ev (has_bits SRC_DIRECT SRC_DIRECT) (set_processing rn true)); [apply okL_set_processing; exact HokL | lia | exact Hev]. }
+  cbn beta. intros code rn2 i2 (Hok2 & Hp2 & Hres). rewrite abs_set_processing in Hres.
+  eapply sim_bind; [apply (sim_modify val _ rn2 (fun _ rn3 i3 => rn3 = set_processing rn2 false /\ i3 = [])); auto|].
+  cbn beta. intros u3 rn3 i3 (-> & ->).
+  rewrite core_no_completion. cbn [andb].
+  eapply sim_bind; [apply (sim_ret val tt (set_processing rn2 false) (fun _ rn4 i4 => rn4 = set_processing rn2 false /\ i4 = [])); auto|].
+  cbn beta. intros u4 rn4 i4 (-> & ->).
+  assert (Hf : 1 <= f) by lia.
+  change (has_bits SRC_DIRECT SRC_MSG_QUEUE) with false. change (has_bits SRC_DIRECT SRC_DEFERRED) with false.
+  change (has_bits SRC_DIRECT SRC_DIRECT) with true in Hres. cbn [negb orb] in *.
+  assert (Hok2' : okLq (map mkq evs) mc (set_processing rn2 false)) by (apply okL_set_processing; exact Hok2).
+  assert (Hp2' : processing (set_processing rn2 false) = false) by (destruct rn2; reflexivity).
+  eapply sim_bind with (P := fun _ rn5 i5 => ok mc rn5 /\ (i5, abs rn5) = sp_drain pol mc val evs (abs (set_processing rn2 false))).
+  { destruct (c_qbefore cf).
+    - eapply sim_bind; [apply (L_drain f Hroot ltac:(lia) evs f _ Hok2' Hp2' ltac:(lia) Hall)|].
+      cbn beta. intros u5 rn5 i5 (Hok5 & E5).
+      eapply sim_conseq; [apply sim_handle_deferred; exact Hf|]. cbn beta. intros u6 rn6 i6 (-> & ->). rewrite app_nil_l. auto.
+    - eapply sim_bind; [apply sim_handle_deferred; exact Hf|]. cbn beta. intros u5 rn5 i5 (-> & ->).
+      eapply sim_conseq; [apply (L_drain f Hroot ltac:(lia) evs f _ Hok2' Hp2' ltac:(lia) Hall)|].
+      cbn beta. intros u6 rn6 i6 (Hok6 & E6). rewrite app_nil_r. auto. }
+  cbn beta. intros u5 rn5 i5 (Hok5 & E5). apply sim_ret. rewrite !app_nil_l, !app_nil_r.
+  split; [exact Hok5|]. rewrite abs_set_processing in E5.
+  rewrite sp_process_unfold_root. cbn zeta. cbn [o_conf o_items o_taken o_rejected].
+  cbn zeta in Hres. destruct Hres as (H1 & H2 & H3). rewrite Hroot in H1. cbn [negb orb andb] in H1.
+  rewrite <- H2. destruct (sp_drain pol mc val evs (abs rn2)) as [i c'] eqn:Ed. inversion E5; subst i5 c'.
+  split; [rewrite H1, H2; reflexivity|]. split; [reflexivity | exact H3].
+Qed.
+
 (* ---- leaving and entering the whole level (it is the submachine of an enclosing level) ---- *)
-Lemma L_exit_regions fuel ev : forall n r rn items0, okL mc rn ->
+Lemma L_exit_regions {q} fuel ev : forall n r rn items0, okLq q mc rn ->
   sim val (exit_regions contained mc children fuel ev n r) rn
-      (fun _ rn' items => okL mc rn' /\ processing rn' = processing rn /\
+      (fun _ rn' items => okLq q mc rn' /\ processing rn' = processing rn /\
          (items ++ items0, abs rn') =
          fold_left (fun acc r => sp_exit_state (sp_exit_subs mc) ev (nth r (c_act (snd acc)) 0) acc) (seqn r n) (items0, abs rn)).
 Proof.
@@ -958,7 +1079,7 @@ Proof.
   - apply sim_ret. auto.
   - eapply sim_bind; [apply (sim_get val rn (fun a rn1 i1 => a = rn /\ rn1 = rn /\ i1 = [])); auto|].
     cbn beta. intros a rn0 i0 (-> & -> & ->).
-    eapply sim_bind; [apply (L_exit fuel (nth r (act rn) 0) ev rn Hok)|].
+    eapply sim_bind; [apply (L_exit (q:=q) fuel (nth r (act rn) 0) ev rn Hok)|].
     cbn beta. intros u rn1 i1 (Hok1 & Hp1 & E1).
     eapply sim_conseq; [apply (IH (S r) rn1 (i1 ++ items0) Hok1)|].
     cbn beta. intros u2 rn2 i2 (Hok2 & Hp2 & E2).
@@ -968,9 +1089,9 @@ Proof.
 Qed.
 
 
-Lemma L_start_regions fuel ev : 1 <= fuel -> forall n r rn items0, okL mc rn ->
+Lemma L_start_regions {q} fuel ev : 1 <= fuel -> forall n r rn items0, okLq q mc rn ->
   sim val (start_regions cf contained mc children fuel ev n r) rn
-      (fun _ rn' items => okL mc rn' /\ processing rn' = processing rn /\
+      (fun _ rn' items => okLq q mc rn' /\ processing rn' = processing rn /\
          (items ++ items0, abs rn') =
          fold_left (fun acc r => sp_enter_state (sp_enter_subs mc) ev (nth r (c_act (snd acc)) 0) acc) (seqn r n) (items0, abs rn)).
 Proof.
@@ -978,7 +1099,7 @@ Proof.
   - apply sim_ret. auto.
   - eapply sim_bind; [apply (sim_get val rn (fun a rn1 i1 => a = rn /\ rn1 = rn /\ i1 = [])); auto|].
     cbn beta. intros a rn0 i0 (-> & -> & ->).
-    eapply sim_bind; [apply (L_entry fuel (nth r (act rn) 0) ev rn Hok Hf)|].
+    eapply sim_bind; [apply (L_entry (q:=q) fuel (nth r (act rn) 0) ev rn Hok Hf)|].
     cbn beta. intros u rn1 i1 (Hok1 & Hp1 & E1).
     eapply sim_conseq; [apply (IH (S r) rn1 (i1 ++ items0) Hok1)|].
     cbn beta. intros u2 rn2 i2 (Hok2 & Hp2 & E2).
@@ -1060,7 +1181,7 @@ Lemma L_silent ev c :
   existsb (fun t => trig_matches parents true t (e_ty ev)) (level_trigs cf mc children) = false ->
   sp_level pol mc ev val c = Out false false [] c.
 Proof.
-  apply L_silent_gen.
+  eapply L_silent_gen.
   - intros x Hg. apply good_unmatched. exact Hg.
   - intros m co k Hsp. apply (cs_silent m co Hsp ev k).
 Qed.
@@ -1068,7 +1189,7 @@ Lemma L_silent_fct ev c :
   existsb (fun t => match t with TrEv e => Nat.eqb e (e_ty ev) | _ => false end) (level_trigs cf mc children) = false ->
   sp_level pol mc ev val c = Out false false [] c.
 Proof.
-  apply L_silent_gen.
+  eapply L_silent_gen.
   - intros x (_ & (e & He & _)). unfold sp_matches. rewrite He. exact (fun H => H).
   - intros m co k Hsp. apply (cs_silent_fct m co Hsp ev k).
 Qed.
@@ -1248,6 +1369,112 @@ Proof.
   eapply sim_conseq; [exact Hpost|]. cbn beta. intros u3 rn3 i3 (Hok3 & -> & E3).
   split; [exact Hok3|]. unfold sp_stop. erewrite sp_exit_unfold by eauto. rewrite <- E1.
   rewrite app_nil_l. cbn [app]. rewrite abs_act, E3. reflexivity.
+Qed.
+
+(* ---- the outermost machine with events stored from outside (enqueue_event) ---- *)
+Definition quiet (evs:list evt) (mc:machine) (rn:rnode) : Prop := okLq (map mkq evs) mc rn /\ processing rn = false.
+Definition user_events (evs:list evt) : Prop := Forall (fun e => e_ty e <> EV_NONE) evs.
+
+Lemma quiet_nil mc rn : quiet [] mc rn <-> ok mc rn.
+Proof. unfold quiet. cbn [map]. symmetry. apply ok_unfold. Qed.
+
+Theorem back_enqueue_q : forall mc evs e rn, quiet evs mc rn ->
+  sim val (co_enqueue (build cf parents false mc) e) rn (fun _ rn' items => quiet (evs ++ [e]) mc rn' /\ items = [] /\ abs rn' = abs rn).
+Proof.
+  intros mc evs e rn (Hok & Hp). rewrite build_back. cbn [back_ops co_enqueue]. unfold cb_enqueue, push_msg.
+  apply sim_modify. split; [|split; [reflexivity | apply abs_set_msgq]].
+  split; [|destruct rn; exact Hp]. destruct Hok as (Hq & Hd & Hk). rewrite Hq, map_app. cbn [map].
+  eapply okL_set_msgq. split; eauto.
+Qed.
+
+Theorem back_process_event_q : forall mc, core mc -> forall evs fuel ev rn,
+  quiet evs mc rn -> depth mc + 3 + length evs <= fuel -> e_ty ev <> EV_NONE -> user_events evs ->
+  sim val (co_pei (build cf parents false mc) fuel ev SRC_DIRECT) rn
+      (fun code rn' items => ok mc rn' /\
+         (let o := sp_process pol mc ev val (abs rn) in
+          let '(i, c') := sp_drain pol mc val evs (o_conf o) in
+          items = i ++ o_items o /\ abs rn' = c' /\ code_ok code (o_taken o) (o_rejected o))).
+Proof.
+  intros mc Hcore evs fuel ev rn (Hok & Hp) Hfuel Hev Hall. pose proof (kids_hch mc Hcore) as Hch.
+  rewrite build_back. cbn [back_ops co_pei]. eapply L_pei_direct_q; eauto.
+Qed.
+
+Theorem back_drain_q : forall mc, core mc -> forall evs fuel rn,
+  quiet evs mc rn -> depth mc + 3 + length evs <= fuel -> user_events evs ->
+  sim val (co_drain (build cf parents false mc) fuel 0) rn
+      (fun _ rn' items => ok mc rn' /\ (items, abs rn') = sp_drain pol mc val evs (abs rn)).
+Proof.
+  intros mc Hcore evs fuel rn (Hok & Hp) Hfuel Hall. pose proof (kids_hch mc Hcore) as Hch.
+  rewrite build_back. cbn [back_ops co_drain]. change (Nat.eqb 0 0) with true. cbn iota.
+  eapply L_drain; eauto; lia.
+Qed.
+
+Theorem back_stop_q : forall mc, core mc -> forall evs fuel rn, quiet evs mc rn ->
+  sim val (co_stop (build cf parents false mc) fuel) rn
+      (fun _ rn' items => quiet evs mc rn' /\ (items, abs rn') = sp_stop mc (abs rn)).
+Proof.
+  intros mc Hcore evs fuel rn (HokL & Hp). pose proof (kids_hch mc Hcore) as Hch.
+  rewrite build_back. cbn [back_ops co_stop]. unfold do_stop, do_exit_pre.
+  eapply sim_bind; [eapply L_exit_regions with (items0 := []); eauto|].
+  cbn beta. intros u1 rn1 i1 (Hok1 & Hp1 & E1). rewrite app_nil_r in E1.
+  eapply sim_bind; [eapply sim_cb|]. cbn beta. intros u2 rn2 i2 (-> & ->).
+  unfold do_exit_post.
+  eapply sim_bind; [apply (sim_modify val _ rn1 (fun _ rn3 i3 => rn3 = (match m_hist mc with HNone => rn1 | _ => set_hist rn1 (act rn1) end) /\ i3 = [])); auto|].
+  cbn beta. intros u rn3 i3 (-> & ->).
+  assert (Ha : abs (match m_hist mc with HNone => rn1 | _ => set_hist rn1 (act rn1) end) = sp_post_exit mc (abs rn1)).
+  { unfold sp_post_exit. destruct (m_hist mc); [reflexivity | |]; rewrite abs_set_hist, abs_act; reflexivity. }
+  assert (Ho : quiet evs mc (match m_hist mc with HNone => rn1 | _ => set_hist rn1 (act rn1) end)).
+  { unfold quiet. destruct (m_hist mc); (split; [try apply okL_set_hist; exact Hok1 | destruct rn1; cbn in *; congruence]). }
+  assert (Hfin : forall rnx, quiet evs mc rnx -> abs rnx = sp_post_exit mc (abs rn1) ->
+            quiet evs mc rnx /\ (([] ++ [Cb KMExit [] 0 (Evt EV_EXIT 0) false (act rn1)]) ++ i1, abs rnx) = sp_stop mc (abs rn)).
+  { intros rnx Hqx Hax. split; [exact Hqx|]. unfold sp_stop. erewrite sp_exit_unfold by eauto. rewrite <- E1.
+    rewrite app_nil_l. cbn [app]. rewrite abs_act, Hax. reflexivity. }
+  destruct (keeps_deferred mc (e_ty (Evt EV_EXIT 0))).
+  - apply sim_ret. rewrite app_nil_l. apply Hfin; assumption.
+  - apply sim_modify. rewrite app_nil_l. apply Hfin.
+    + destruct Ho as (Ho1 & Ho2). split; [apply okL_set_defq_nil; exact Ho1|].
+      destruct (match m_hist mc with HNone => rn1 | _ => set_hist rn1 (act rn1) end); exact Ho2.
+    + rewrite abs_set_defq. exact Ha.
+Qed.
+
+Theorem back_start_q : forall mc, core mc -> forall evs fuel rn, quiet evs mc rn ->
+  depth mc + 3 + length evs <= fuel -> user_events evs ->
+  sim val (co_start (build cf parents false mc) fuel) rn
+      (fun _ rn' items => ok mc rn' /\
+         (let '(i0, c0) := sp_start mc (abs rn) in
+          let '(i, c') := sp_drain pol mc val evs c0 in items = i ++ i0 /\ abs rn' = c')).
+Proof.
+  intros mc Hcore evs fuel rn (HokL & Hp) Hf Hall. pose proof (kids_hch mc Hcore) as Hch.
+  rewrite build_back. cbn [back_ops co_start]. unfold do_start, start_queues. rewrite (is11_false cf Hbe), Hstartq.
+  erewrite core_no_completion by eauto.
+  eapply sim_bind; [apply (sim_modify val _ rn (fun _ rn1 i1 => rn1 = set_act rn (m_inits mc) /\ i1 = [])); auto|].
+  cbn beta. intros u1 rn1 i1 (-> & ->).
+  eapply sim_bind; [apply (sim_modify val _ _ (fun _ rn2 i2 => rn2 = set_processing (set_act rn (m_inits mc)) true /\ i2 = [])); auto|].
+  cbn beta. intros u2 rn2 i2 (-> & ->).
+  set (rn0 := set_processing (set_act rn (m_inits mc)) true).
+  assert (Hok0 : okLq (map mkq evs) mc rn0) by (apply okL_set_processing, okL_set_act; exact HokL).
+  eapply sim_bind with (P := fun _ rn3 i3 => okLq (map mkq evs) mc rn3 /\ processing rn3 = true /\
+      (i3, abs rn3) = (let '(items, c1) := sp_enter mc (Evt EV_INIT 0) (abs rn0) in
+                       (items ++ [Cb KMEntry [] 0 (Evt EV_INIT 0) false (m_inits mc)], c1))).
+  { apply sim_on_throw.
+    eapply sim_bind; [eapply sim_cb|]. cbn beta. intros u3 rn3 i3 (-> & ->).
+    eapply sim_conseq; [eapply L_start_regions with (items0 := []); eauto; lia|].
+    cbn beta. intros u4 rn4 i4 (H1 & H2 & H3). split; [exact H1|]. split; [rewrite H2; unfold rn0; destruct rn; reflexivity|].
+    rewrite app_nil_r in H3. erewrite sp_enter_unfold by eauto. rewrite <- H3.
+    f_equal. f_equal. unfold rn0. destruct rn; reflexivity. }
+  cbn beta. intros u3 rn3 i3 (Hok3 & Hp3 & E3).
+  eapply sim_bind; [apply (sim_modify val _ rn3 (fun _ rn4 i4 => rn4 = set_processing rn3 false /\ i4 = [])); auto|].
+  cbn beta. intros u4 rn4 i4 (-> & ->).
+  eapply sim_bind; [apply (sim_ret val tt (set_processing rn3 false) (fun _ rn5 i5 => rn5 = set_processing rn3 false /\ i5 = [])); auto|].
+  cbn beta. intros u5 rn5 i5 (-> & ->).
+  eapply sim_conseq.
+  { eapply (L_drain cf Hbe parents Hflat val false mc (kidsops mc) Hch Hcore fuel eq_refl ltac:(lia) evs fuel (set_processing rn3 false));
+      [apply okL_set_processing; exact Hok3 | destruct rn3; reflexivity | lia | exact Hall]. }
+  cbn beta. intros u6 rn6 i6 (Hok6 & E6). rewrite ?app_nil_l, ?app_nil_r. split; [exact Hok6|].
+  rewrite abs_set_processing in E6. unfold sp_start, sp_start_obs.
+  replace (c_set_act (abs rn) (m_inits mc)) with (abs rn0) by (unfold rn0; rewrite abs_set_processing, abs_set_act; reflexivity).
+  destruct (sp_enter mc (Evt EV_INIT 0) (abs rn0)) as [items c1]. inversion E3 as [[Hi3 Ha3]].
+  rewrite Ha3 in E6. rewrite Ha3. destruct (sp_drain pol mc val evs c1) as [i c'] eqn:Ed. inversion E6 as [[Hi6 Ha6]]. auto.
 Qed.
 
 End BackWhole.
